@@ -10,6 +10,7 @@ import (
 	"io"
 	"net/http"
 	"os"
+	"runtime"
 	"sort"
 	"strings"
 	"testing"
@@ -93,6 +94,8 @@ type thread struct {
 	done   bool
 	err    error
 	active bool
+	judged bool
+	rolled map[string]bool // endpoints whose stored list was older than the newest downloaded one at some moment of the call
 }
 
 type runner struct {
@@ -420,6 +423,11 @@ func (r *runner) checkState() {
 		case !r.goodFor(e, o):
 			r.violate("bad-list-stored", o.Kind+"/"+map[bool]string{true: "right-issuer", false: "other-issuer"}[o.Iss == r.w.epIssuer[e]], fmt.Sprintf("endpoint %s holds %s", e, id))
 		case o.Num < b.Num:
+			for _, t := range r.threads {
+				if t.active && !t.done {
+					t.rolled[e] = true
+				}
+			}
 			r.violate("older-replaced-newer", "crl", fmt.Sprintf("endpoint %s: list number %d (%s) was downloaded, the validator now holds number %d (%s)", e, b.Num, b.ID, o.Num, id))
 		}
 	}
@@ -480,6 +488,10 @@ func (r *runner) pos(t *thread) (string, string) {
 		}
 	}
 	if t.done {
+		if !t.judged {
+			t.judged = true
+			r.judge(t)
+		}
 		return "done", "-"
 	}
 	at := r.e.g.where(t.name)
@@ -488,6 +500,11 @@ func (r *runner) pos(t *thread) (string, string) {
 		return "req", at[3:]
 	case strings.HasPrefix(at, "eof:"):
 		return "resp", at[4:]
+	}
+	if len(r.res.Notes) < 2 {
+		buf := make([]byte, 1<<20)
+		n := runtime.Stack(buf, true)
+		r.res.Notes = append(r.res.Notes, "actor "+t.name+" nowhere after settle:\n"+string(buf[:n]))
 	}
 	return "?" + at, "-"
 }
@@ -540,7 +557,13 @@ func (r *runner) step(i int, s stepT) error {
 			mode = "soft"
 		}
 		t := &thread{name: s.T, ch: s.Ch, via: s.Via, mode: mode, cn: s.Cn, snap: map[string]crlObj{}, seen: map[string]bool{}, t0: e.now,
-			clean: true, result: make(chan error, 1), active: true}
+			clean: true, result: make(chan error, 1), active: true, rolled: map[string]bool{}}
+		_, _, st0 := r.projection()
+		for ep, b := range r.best {
+			if cur, ok := r.w.crlByID[st0[ep]]; ok && r.goodFor(ep, cur) && cur.Num < b.Num {
+				t.rolled[ep] = true
+			}
+		}
 		for k, v := range r.best {
 			t.snap[k] = v
 		}
@@ -622,7 +645,9 @@ func (r *runner) step(i int, s stepT) error {
 				return err
 			}
 		}
-		r.judge(t, s.Res)
+		if got := classOf(t.err); s.Res != "" && s.Res != got {
+			r.drift("VEnd(%s) chain %v via %s: the code answers %s, the model %s", t.name, t.ch, t.via, got, s.Res)
+		}
 		t.active = false
 		if t.cn && t.err == nil {
 			r.addConn(t.ch[0])
@@ -655,11 +680,30 @@ func (r *runner) step(i int, s stepT) error {
 			return err
 		}
 		got := []string{}
-		for a, p := range e.g.blocked() {
-			if strings.HasPrefix(a, "S:") && strings.HasPrefix(p, "rt:") {
-				got = append(got, a[2:])
-				delete(want, a)
+		for try := 0; ; try++ {
+			got = got[:0]
+			missing := 0
+			for a := range want {
+				if !strings.HasPrefix(e.g.where(a), "rt:") {
+					missing++
+				}
 			}
+			for a, p := range e.g.blocked() {
+				if strings.HasPrefix(a, "S:") && strings.HasPrefix(p, "rt:") {
+					got = append(got, a[2:])
+				}
+			}
+			if missing == 0 || try >= 30 {
+				break
+			}
+			// not a verdict before the round had every chance to ask
+			time.Sleep(50 * time.Millisecond)
+			if err := settle(giveUp); err != nil {
+				return err
+			}
+		}
+		for _, x := range got {
+			delete(want, "S:"+x)
 		}
 		sort.Strings(got)
 		for a := range want {
@@ -726,7 +770,7 @@ func (r *runner) step(i int, s stepT) error {
 			r.drift("SyncEnd: no round is running")
 			return nil
 		}
-		if err := r.endSync(); err != nil {
+		if err := r.endSync(true); err != nil {
 			return err
 		}
 		r.event("syncend", nil)
@@ -737,12 +781,12 @@ func (r *runner) step(i int, s stepT) error {
 }
 
 // endSync lets every goroutine of the round that is still waiting run to its end and waits for sync() to return.
-func (r *runner) endSync() error {
+func (r *runner) endSync(scripted bool) error {
 	for n := 0; n < 40; n++ {
 		rel := false
 		for a, p := range r.e.g.blocked() {
 			if strings.HasPrefix(a, "S:") {
-				if n == 0 {
+				if n == 0 && scripted {
 					r.drift("SyncEnd: %s is still at %s", a, p)
 				}
 				r.e.mu.Lock()
@@ -806,15 +850,12 @@ func (r *runner) finish(t *thread) error {
 }
 
 // judge evaluates the statement on the verdict the real validator returned.
-func (r *runner) judge(t *thread, modelRes string) {
+func (r *runner) judge(t *thread) {
 	got := classOf(t.err)
 	r.res.Validations++
 	r.res.Verdicts[t.mode+":"+got]++
 	if got == "other" {
 		r.violate("unknown-error", t.mode, fmt.Sprintf("chain %v: %v", t.ch, t.err))
-	}
-	if modelRes != "" && modelRes != got {
-		r.drift("VEnd(%s) chain %v via %s: the code answers %s, the model %s", t.name, t.ch, t.via, got, modelRes)
 	}
 	_, _, stored := r.projection()
 	now := r.e.now
@@ -827,7 +868,7 @@ func (r *runner) judge(t *thread, modelRes string) {
 					site := "other"
 					cur, isStored := r.w.crlByID[stored[e]]
 					switch {
-					case isStored && r.goodFor(e, cur) && cur.Num < b.Num:
+					case (isStored && r.goodFor(e, cur) && cur.Num < b.Num) || t.rolled[e]:
 						site = "stored-list-is-older"
 					case t.mode == "soft" && r.sc.UseDl && r.dlCur == nil:
 						site = "skipped-after-denylist-missing"
@@ -864,7 +905,7 @@ func (r *runner) judge(t *thread, modelRes string) {
 					b, ok := r.best[e]
 					switch {
 					case !r.trusted[r.w.cat.Issuer[c]]:
-						r.violate("hardfail-accepted", "untrusted-issuer", fmt.Sprintf("chain %v via %s: the issuer of %s is not in the trust store", t.ch, t.via, c))
+						r.violate("unknown-issuer-not-untrusted", r.epKnown(stored, e), fmt.Sprintf("chain %v via %s (hard): the issuer of %s is not in the trust store, verdict ok", t.ch, t.via, c))
 					case !ok:
 						r.violate("hardfail-accepted", "no-list", fmt.Sprintf("chain %v via %s: no correctly signed list was ever downloaded from %s", t.ch, t.via, e))
 					case b.Nxt <= t.t0:
@@ -910,7 +951,7 @@ func (r *runner) judge(t *thread, modelRes string) {
 		rolled := false
 		for _, c := range t.ch {
 			for _, e := range r.w.cat.Dps[c] {
-				if b, ok := r.best[e]; ok && stored[e] != b.ID {
+				if b, ok := r.best[e]; ok && (stored[e] != b.ID || t.rolled[e]) {
 					rolled = true
 				}
 			}
@@ -919,11 +960,21 @@ func (r *runner) judge(t *thread, modelRes string) {
 			r.res.Exact++
 			conds := r.conditions(t.ch, r.best, r.dlCur, now)
 			want := prescribed(conds, t.mode)
+			if len(conds) > 0 && conds[0].what == "untrusted" && got != "untrusted" {
+				// an unknown issuer is ErrCertUntrusted (nothing else is wrong with the certificates checked before it)
+				r.violate("unknown-issuer-not-untrusted", r.epKnown(stored, r.w.cat.Dps[conds[0].cert][0]), fmt.Sprintf("chain %v via %s (%s): the issuer of %s is not in the trust store, the validator answers %s",
+					t.ch, t.via, t.mode, conds[0].cert, got))
+				return
+			}
 			kinds := map[string]bool{}
 			for _, c := range conds {
 				kinds[c.what] = true
 			}
 			switch {
+			case want == "revoked" && got != "ok" && !final(got):
+				// CA first: what is known to be revoked is reported as revoked, not as "cannot be established"
+				r.violate("revoked-not-reported", got, fmt.Sprintf("chain %v via %s (%s), clock %d, lists %v: a certificate of the chain is revoked and nothing is wrong with the certificates above it, the validator answers %s",
+					t.ch, t.via, t.mode, now, r.bestIDs(), got))
 			case (want == "ok") != (got == "ok"):
 				r.violate("verdict-differs", want+"->"+got, fmt.Sprintf("chain %v via %s (%s), clock %d, lists %v, denylist %v: expected %s, the validator answers %s",
 					t.ch, t.via, t.mode, now, r.bestIDs(), r.dlID(), want, got))
@@ -932,6 +983,13 @@ func (r *runner) judge(t *thread, modelRes string) {
 			}
 		}
 	}
+}
+
+func (r *runner) epKnown(stored map[string]string, e string) string {
+	if _, ok := stored[e]; ok {
+		return "known-endpoint"
+	}
+	return "unknown-endpoint"
 }
 
 func (r *runner) allGood(e string) []crlObj {
@@ -997,7 +1055,7 @@ func runScript(w *world, sc scriptT, sabot string) (res resultT) {
 	// the script may end in the middle of a round or a validation: let everything run to its end and judge it
 	r.stepNo = len(sc.Steps)
 	if r.syncing {
-		if err := r.endSync(); err != nil {
+		if err := r.endSync(false); err != nil {
 			res0.Error = err.Error()
 			return
 		}
@@ -1009,7 +1067,7 @@ func runScript(w *world, sc scriptT, sabot string) (res resultT) {
 				res0.Error = err.Error()
 				return
 			}
-			r.judge(t, "")
+			r.pos(t)
 			t.active = false
 		}
 	}
